@@ -19,6 +19,37 @@ CLAIMED = {
             "Trusted: Lean kernel + Mathlib, axioms propext/Classical.choice/Quot.sound; hand-written model tied to the "
             "code by sampled correspondence; float rounding of sums not modelled (1e-12 exact-arithmetic excess is "
             "checked, not proved).", "§6 C04"),
+    "C05": ("Lean 4 proof: model = independently stated KOV spec (equalities, permutation invariance, monotonicity) + "
+            "pure-function correspondence and 60-digit reference check",
+            "Machine-checked over R about the same `totalCore` the driver runs: delta fold = 1-(1-slack)*prod(1-d_i) "
+            "(total_delta_eq), epsilon = min(sum, DRV, KOV) with the coded term = eps*tanh(eps/2) (total_eps_eq, "
+            "term_eq_tanh), slack 0 = basic composition, invariance under List.Perm, monotone under appending a spend, "
+            "delta in [0,1]. Tied to the code by bit-exact (slack 0) / 1e-12 (slack>0) comparison of the public pure "
+            "`total(spent_budget=, slack=)` with the driver on lists of 0..200 spends, and checked directly against an "
+            "independent 60-digit decimal/fractions KOV evaluation (closeness, never below, permutation, monotonicity).",
+            "Trusted: Lean kernel + Mathlib; that the KOV expression is a valid composition bound is cited, not proved; "
+            "IEEE rounding not modelled (deviations beyond the property's slack near slack=1 are a listed known finding).",
+            "§6 C05"),
+    "C18": ("Lean 4 proof: bisection bracket invariant (any carrier) + spendable/maximal/antitone theorems over R + "
+            "correspondence and spend-back experiment on the implementation",
+            "Machine-checked: the returned epsilon is the midpoint of a bracket whose lower end the code's own test "
+            "accepted and whose upper end it rejected (any carrier, remaining_bracket); over R: width ceil/2^n, every "
+            "x <= eps_r - ceil/2^(n+1) is spendable k times and is accepted by the model's own `spend`, every "
+            "x >= eps_r + ceil/2^(n+1) reaches the ceiling, 0 <= eps_r <= ceiling, antitone in the history, delta closed "
+            "form exact ((x^(1/k))^k = x) and within [0, ceiling]. Tied to the code by comparing remaining(k) with the "
+            "driver (bit-exact at slack 0) and checked directly by the spend-back experiment of the property's quantifier.",
+            "Trusted: Lean kernel + Mathlib; number of iterations of the double-precision loop is observed (>= 52 or exact "
+            "root), not proved; two rounding regions are listed known findings.", "§6 C18"),
+    "C16": ("Lean 4 proof: refinement of the _default/old_default machine to a stack for every well-bracketed program + "
+            "program-level correspondence with real `with` blocks",
+            "Machine-checked (core Lean, no Mathlib): the faithful machine (class attribute _default, per-instance "
+            "old_default, lazily created default) refines a stack of defaults for every well-bracketed program over "
+            "distinct accountants incl. exits by exception (scope_refines_stack), hence exit restores the previous "
+            "default, explicit accountants win, calls inside a block charge that block's accountant; re-entering the same "
+            "accountant is proved to break restoration (why distinctness is a hypothesis). Tied to the code by executing "
+            "generated programs with real BudgetAccountant objects and comparing charged accountant / default identity "
+            "after every event with both the model and a stack oracle.",
+            "Trusted: Lean kernel; hand-written model tied by sampled correspondence; CPython's `with` protocol.", "§6 C16"),
     "C20": ("Lean 4 proof: soundness of an alias/heap check over every execution order + alias IR regenerated from the "
             "Python sources on every run (translator) and decided in Lean; bitwise-snapshot experiment on the implementation",
             "Machine-checked: a statement set that passes `check` never writes caller-owned memory along any execution "
